@@ -31,8 +31,9 @@ type kfLine struct {
 	Text string `json:"text"` // final line content (without ending)
 	End  string `json:"end"`  // "\n" | "\r\n" | "" (only last)
 	Bad  bool   `json:"bad"`
-	Skip bool   `json:"skip"`          // may be skipped with a warning (CLI, valid unsupported SSH key)
-	SSH  string `json:"ssh,omitempty"` // for supported SSH lines: "ed25519:<idx>" / "rsa:<idx>"
+	Skip bool   `json:"skip"`           // may be skipped with a warning (CLI, valid unsupported SSH key)
+	SSH  string `json:"ssh,omitempty"`  // for supported SSH lines: "ed25519:<idx>" / "rsa:<idx>"
+	Huge bool   `json:"huge,omitempty"` // longer than the scanner's buffer: the error need not name a line
 }
 
 type c18Case struct {
@@ -91,6 +92,9 @@ func c18CheckLeak(c c18Case, msg string) error {
 	low := strings.ToLower(msg)
 	for i, l := range c.Lines {
 		content := l.Text
+		if l.Huge {
+			continue
+		}
 		if l.Skip {
 			// the documented warning names the key type of a skipped SSH line
 			if i := strings.IndexByte(content, ' '); i >= 0 {
@@ -190,7 +194,7 @@ func c18Compare(c c18Case, want []kfLine, firstBad int, got []string, err error,
 		if !isNil {
 			return pbt.Failf("C18/partial-result", "parsing failed but returned %d keys", len(got))
 		}
-		if firstBad > 0 {
+		if firstBad > 0 && !c.Lines[firstBad-1].Huge {
 			emsg := err.Error()
 			if i := strings.Index(emsg, "error:"); i >= 0 {
 				emsg = emsg[i:] // CLI: skip warnings about other lines printed before the error
@@ -346,6 +350,10 @@ func substitute(t *rapid.T, s string, n int) string {
 		if ch == b[i] {
 			ch = al[(strings.IndexByte(al, ch)+1)%32]
 		}
+		if rapid.IntRange(0, 2).Draw(t, "outsideAlphabet") == 0 {
+			// characters that are not in the Bech32 alphabet at all
+			ch = rapid.SampledFrom([]byte("bioBIO!$%&*+,-./:;<=>?@[]^_{|}~")).Draw(t, "subCh2")
+		}
 		b[i] = ch
 	}
 	return string(b)
@@ -354,7 +362,7 @@ func substitute(t *rapid.T, s string, n int) string {
 func c18GenLine(t *rapid.T, identities, cli bool) kfLine {
 	idx := rapid.IntRange(0, 30).Draw(t, "keyIdx")
 	key := c18KeyString(identities, idx)
-	kinds := []string{"key", "key", "key", "key", "comment", "empty", "bad-subst", "bad-trunc", "bad-lead-space", "bad-trail-space", "bad-tab", "bad-case", "bad-two-keys", "bad-ws-only", "bad-indented-comment", "bad-crcr", "bad-other-kind", "comment-with-key", "bad-garbage"}
+	kinds := []string{"key", "key", "key", "key", "comment", "empty", "bad-huge-comment", "bad-huge-key", "bad-subst", "bad-trunc", "bad-lead-space", "bad-trail-space", "bad-tab", "bad-case", "bad-two-keys", "bad-ws-only", "bad-indented-comment", "bad-crcr", "bad-other-kind", "comment-with-key", "bad-garbage"}
 	if cli && !identities {
 		kinds = append(kinds, "ssh-ok-ed25519", "ssh-ok-rsa", "ssh-unsupported-ecdsa", "ssh-unsupported-small-rsa", "bad-ssh-truncated", "bad-ssh-extra", "bad-ssh-typeonly", "bad-long-line", "ssh-ok-ed25519", "bad-ssh-truncated")
 	}
@@ -382,6 +390,11 @@ func c18GenLine(t *rapid.T, identities, cli bool) kfLine {
 		l.Kind, l.Text = "comment", "# "+key
 	case "empty":
 		l.Text = ""
+	case "bad-huge-comment":
+		// a comment longer than any line buffer: the file cannot be parsed line by line any more
+		l.Text, l.Bad, l.Huge = "# "+strings.Repeat("c", rapid.SampledFrom([]int{65536, 70000, 200000}).Draw(t, "huge")), true, true
+	case "bad-huge-key":
+		l.Text, l.Bad, l.Huge = key+strings.Repeat(" ", rapid.SampledFrom([]int{65536, 70000}).Draw(t, "huge")), true, true
 	case "bad-subst":
 		l.Text, l.Bad = substitute(t, key, rapid.IntRange(1, 4).Draw(t, "nsub")), true
 		if l.Text == key {
@@ -421,7 +434,7 @@ func c18GenLine(t *rapid.T, identities, cli bool) kfLine {
 	case "bad-other-kind":
 		l.Text, l.Bad = c18KeyString(!identities, idx), true
 	case "bad-garbage":
-		l.Text, l.Bad = rapid.SampledFrom([]string{"garbage", "age1", "AGE-SECRET-KEY-1", "-----BEGIN X-----", "ssh-ed25519", "github:user"}).Draw(t, "garbage"), true
+		l.Text, l.Bad = rapid.SampledFrom([]string{"garbage", "age1", "AGE-SECRET-KEY-1", "----BEGIN X-----", "ssh-ed25519", "github:user"}).Draw(t, "garbage"), true
 	case "bad-plugin-name":
 		l.Text, l.Bad = strings.ToUpper(refage.Bech32EncodeGroups("age-plugin-a/b-", refage.To5([]byte("x")), false)), true
 	case "ssh-ok-ed25519":
@@ -479,6 +492,46 @@ func c18Gen(t *rapid.T, via string) c18Case {
 		c.Lines[n-1].End = ""
 	}
 	return c
+}
+
+// a read error in the middle of a key file must not yield a shortened key list
+type c18Fault struct {
+	Identities bool `json:"identities"`
+	NKeys      int  `json:"nkeys"`
+	At         int  `json:"at"`
+	WithData   bool `json:"withData"`
+}
+
+func c18CheckFault(c c18Fault, st *stats.Run) error {
+	var b bytes.Buffer
+	b.WriteString("# keys\n")
+	for i := 0; i < c.NKeys; i++ {
+		b.WriteString(c18KeyString(c.Identities, i) + "\n")
+		if i%2 == 1 {
+			b.WriteString("# a comment between keys\n\n")
+		}
+	}
+	data := b.Bytes()
+	at := c.At % len(data)
+	fr := &hx.FaultReader{Data: data, At: at, WithData: c.WithData}
+	var n int
+	var err error
+	if c.Identities {
+		ids, e := age.ParseIdentities(fr)
+		n, err = len(ids), e
+	} else {
+		rs, e := age.ParseRecipients(fr)
+		n, err = len(rs), e
+	}
+	st.Case(true, stats.HashJSON(c), "read-fault", fmt.Sprintf("read-fault:identities=%v", c.Identities))
+	st.Sample("read-fault", c)
+	if err == nil {
+		return pbt.Failf("C18/read-error-swallowed", "reading the key file failed at offset %d of %d, yet parsing succeeded with %d of %d keys: the remaining lines were dropped silently", at, len(data), n, c.NKeys)
+	}
+	if n != 0 {
+		return pbt.Failf("C18/partial-result", "parsing failed but returned %d keys", n)
+	}
+	return nil
 }
 
 func TestC18(t *testing.T) {
@@ -549,6 +602,23 @@ func TestC18(t *testing.T) {
 		}
 		s.St.Exhaust("every position of the public prefix (up to the separator) of an identity and a recipient line substituted by 4 characters or deleted, library and CLI", int64(n))
 	}, check)
+	pbt.Each(s, "keyfiles-read-fault", func(yield func(c18Fault)) {
+		n := 0
+		for _, ids := range []bool{true, false} {
+			for nk := 1; nk <= 4; nk++ {
+				l := 8 + nk*80
+				for at := 0; at < l; at += 1 {
+					for _, wd := range []bool{false, true} {
+						if s.Mine(n) {
+							yield(c18Fault{Identities: ids, NKeys: nk, At: at, WithData: wd})
+						}
+						n++
+					}
+				}
+			}
+		}
+		s.St.Exhaust("a source that fails at every offset of key files with 1..4 keys (identities and recipients), error alone or with data", int64(n))
+	}, func(c c18Fault) error { return c18CheckFault(c, s.St) })
 	pbt.Rapid(s, "keyfiles-lib", s.N(30000, 200000), func(t *rapid.T) c18Case { return c18Gen(t, "lib") }, check)
 	pbt.Rapid(s, "keyfiles-cli", s.N(400, 2500), func(t *rapid.T) c18Case { return c18Gen(t, "cli") }, check)
 	pbt.Rapid(s, "keyfiles-keygen", s.N(100, 600), func(t *rapid.T) c18Case { return c18Gen(t, "keygen") }, check)
